@@ -116,12 +116,20 @@ func newCall(parent context.Context, st Step) *call {
 func (cl *call) runUnary(cc *goat.ClientConn, st Step) {
 	e := cl.base("UCall")
 	e.K, e.Pay, e.N = "unary", tok(payBytes(st.Pay)), st.To
+	if st.What == "bad" {
+		e.X = "bad"
+	}
 	e.Md = mdCanon(mdOf(st.Md))
 	cl.begin("unary")
 	tr.emit(e)
 	reply := new(wrapperspb.BytesValue)
 	m, _ := methodOf("unary")
-	err := cc.Invoke(cl.ctx, m, &wrapperspb.BytesValue{Value: payBytes(st.Pay)}, reply)
+	var err error
+	if st.What == "bad" { // a request the codec refuses: the call fails locally, nothing is written
+		err = cc.Invoke(cl.ctx, m, "not a protobuf message", reply)
+	} else {
+		err = cc.Invoke(cl.ctx, m, &wrapperspb.BytesValue{Value: payBytes(st.Pay)}, reply)
+	}
 	r := cl.base("URet")
 	if err == nil {
 		r.Res, r.Pay = "ok", tok(reply.GetValue())
